@@ -562,12 +562,20 @@ func c08Select(p *chk.Prog, r *chk.Report) {
 				t := sn.Info().TypeOf(e)
 				return t != nil && t.String() == "[]k8s.io/apimachinery/pkg/labels.Selector"
 			})))
+			matches := g.GPat(true, "S.Matches(L)", chk.H("L", definedBy(g, "labels.Set(N.Labels)", chk.H("N", same))))
 			if !ok {
-				ok = g.Dominated(s, g.GPat(true, "S.Matches(L)", chk.H("L", definedBy(g, "labels.Set(N.Labels)", chk.H("N", same)))))
+				ok = g.Dominated(s, matches)
+			}
+			if !ok {
+				// one site for both reasons: `len(selectors) == 0 || <some selector matches>`
+				ok = g.Dominated(s, chk.GOr(g.GPat(true, "len(LS) == 0", chk.H("LS", func(e ast.Expr) bool {
+					t := sn.Info().TypeOf(e)
+					return t != nil && t.String() == "[]k8s.io/apimachinery/pkg/labels.Selector"
+				})), matches))
 			}
 			x.Check("selectedNodes:mark#"+itoa(n), s.Pos(), ok, "", "a node is selected without an empty selector list or a selector matching its labels")
 		}
-		x.Check("selectedNodes:marks", sn.Pos(), n == 2, "", "expected the no-selector and the matching-selector site")
+		x.Check("selectedNodes:marks", sn.Pos(), n >= 1, "", "expected the no-selector and the matching-selector site")
 	}
 	sp := need(x, p, cfgPkg, "", "selectedPools")
 	if sp != nil {
@@ -605,10 +613,17 @@ func c08Select(p *chk.Prog, r *chk.Report) {
 			pool := rangeVal(sp, outer)
 			noMatch := g.GPat(false, "S.Matches(L)", chk.H("S", rangeVal(sp, inner)), chk.H("L", definedBy(g, "labels.Set(P.Labels)", chk.H("P", pool))))
 			appended := chk.GEvent(func(n ast.Node) bool { return n == app.Top })
+			outerHead, _, _ := g.RangeBlocks(outer)
 			for _, e := range g.LoopIteration(inner, chk.GOr(noMatch, appended)) {
-				if !e.OK {
-					ok = false
+				if e.OK {
+					continue
 				}
+				// the search form: the selector loop is left at the first match and the pool is appended behind it -
+				// every feasible way from that exit to the next pool (or out of the function) passes the append
+				if e.Break && e.EstablishedBefore(outerHead) {
+					continue
+				}
+				ok = false
 			}
 			x.Check("selectedPools:every-matching-pool", outer.Pos(), ok, "", "a pool whose labels a selector matches can be left out (a pool skipped before the selectors are tried, or a selector skipped although it matches): the advertisement is silently not attached to it")
 		}
